@@ -207,10 +207,14 @@ func (lex *Lexer) call(state int, fnext int) {
 }
 
 func (lex *Lexer) ret(n int) {
-	lex.top = lex.top - n
-	if lex.top < 0 {
+	if lex.top < n {
+		// unbalanced closing bracket: there is nothing to return to, keep scanning php
 		lex.top = 0
+		lex.cs = lexer_en_php
+		lex.p++
+		return
 	}
+	lex.top = lex.top - n
 	lex.cs = lex.stack[lex.top]
 	lex.p++
 }
